@@ -1122,21 +1122,25 @@ fn num_expt_rational_i_body() {
     let pd: i128 = if d == 2 { POW2[ae] } else if d == 3 { POW3[ae] } else { POW5[ae] };
     // numerator / denominator of the result, denominator positive
     let (rn, rd) = if e >= 0 { (pn, pd) } else if pn < 0 { (-pd, -pn) } else { (pd, pn) };
-    let fits = rn >= i32::MIN as i128 && rn <= i32::MAX as i128 && rd <= i32::MAX as i128;
+    // both powers fit 31 bits: the result has to be computed (exactly) with small rationals; otherwise it has to leave
+    // them (a result such as (-1/2)^-31 = -2^31 would fit an IntV but one of its powers does not fit an i32: either way is fine,
+    // and its value then comes from num-bigint, which is not executed here)
+    let apn = if pn < 0 { -pn } else { pn };
+    let fits = apn <= i32::MAX as i128 && pd <= i32::MAX as i128;
     kani::cover!(!fits && e > 0, "positive power beyond 32 bits");
     kani::cover!(!fits && e < 0, "negative power beyond 32 bits");
     kani::cover!(fits && e < 0 && n < 0, "negative base, negative power, small");
     match &r {
         Ok(v) => {
             if fits {
-                vassert!(!unsafe { RPOW_BIG }, "a power that fits the small rational form went through big rationals");
+                vassert!(!unsafe { RPOW_BIG }, "a power whose components fit 31 bits went through big rationals");
                 if rd == 1 {
                     check_exact_int(v, rn);
                 } else {
                     vassert!(matches!(v, Rational(q) if *q.numer() as i128 == rn && *q.denom() as i128 == rd), "the power of a rational has the wrong value");
                 }
             } else {
-                vassert!(unsafe { RPOW_BIG }, "a power of a rational whose components leave 32 bits was not computed with big rationals");
+                vassert!(unsafe { RPOW_BIG }, "a power of a rational whose components leave 31 bits was not computed with big rationals");
             }
         }
         Err(_) => {
